@@ -789,6 +789,41 @@ fn test_since_overflow() {
 }
 
 #[test]
+fn test_since_timestamp_millis_overflow() {
+    // timestamp metric whose value in milliseconds does not fit into u64, and the values next to
+    // the boundary 2^64 / 1000
+    for flag in &[
+        0b0100_0000u64, // absolute & time
+        0b1100_0000u64, // relative & time
+    ] {
+        for value in &[
+            0x00ff_ffff_ffff_ffffu64,
+            18_446_744_073_709_552u64,
+            18_446_744_073_709_551u64,
+        ] {
+            let tx = create_tx_with_lock((flag << 56) | value);
+            let median_time_context = MockMedianTime::new(vec![0; 11]);
+            let rtx = create_resolve_tx_with_transaction_info(
+                &tx,
+                median_time_context.get_transaction_info(
+                    1,
+                    EpochNumberWithFraction::new(0, 0, 10),
+                    1,
+                ),
+            );
+
+            assert_error_eq!(
+                verify_since(Arc::clone(&rtx), median_time_context, 5, 1).unwrap_err(),
+                TransactionError::Immature { index: 0 },
+            );
+        }
+    }
+    assert!(Since(0x4000_0000_0000_0000 | 18_446_744_073_709_552u64).timestamp_overflows());
+    assert!(!Since(0x4000_0000_0000_0000 | 18_446_744_073_709_551u64).timestamp_overflows());
+    assert!(!Since(0x00ff_ffff_ffff_ffffu64).timestamp_overflows());
+}
+
+#[test]
 pub fn test_outputs_data_length_mismatch() {
     let transaction = TransactionBuilder::default()
         .output(CellOutput::default())
